@@ -59,9 +59,12 @@ def _cases(draw, tier):
     if large:
         # two-digit ids, real CBC, no enumeration: the printed matching must be valid and
         # unblocked and stability_correct must say so
-        inst = draw(strategies.instances(_lp.LARGE[tier], two_sided=True,
-                                         cls=draw(st.sampled_from(['generic', 'two_agent',
-                                                                   'shared_tight']))))
+        if pct(draw) < 35:
+            inst = draw(strategies.crowd_instances(two_sided=True))
+        else:
+            inst = draw(strategies.instances(_lp.LARGE[tier], two_sided=True,
+                                             cls=draw(st.sampled_from(['generic', 'two_agent',
+                                                                       'shared_tight']))))
         opts = draw(strategies.option_sets(inst, min_crit=1, max_crit=2, twopl=True, stab=True,
                                            names=['maxsize', 'minsize', 'mincost', 'gre']))
         return {'inst': inst, 'opts': opts, 'choices': [], 'mode': 'cbc', 'salt': salt,
